@@ -374,6 +374,22 @@ class MetaSystem(System):
                             colon = "\n".join((*ol, *bl)) + nl
                             dashed = "\n".join(("---", *(o[1:] for o in ol), "---", *bl)) + nl
                             n += 1
+                            if kb <= 1 and ko <= 2:
+                                # blank lines inside the delimited block (after the opener / before the closer) are part of the block
+                                for blank_variant, extra in ((("---", "", *(o[1:] for o in ol), "---", *bl), 3), (("---", *(o[1:] for o in ol), "", "---", *bl), 3),
+                                                             (("---", "", *(o[1:] for o in ol), "", "", "---", *bl), 5)):
+                                    try:
+                                        a0 = parse_directive_text(cls, first, colon, line=0)
+                                        b0 = parse_directive_text(cls, first, "\n".join(blank_variant) + nl, line=0)
+                                    except MarkupError:
+                                        continue
+                                    merged0 = not (cls.required_arguments or cls.optional_arguments) and first.strip()
+                                    if strip_trailing(a0.body) and not merged0 and (b0.body_offset != a0.body_offset + extra or strip_trailing(a0.body) != strip_trailing(b0.body)
+                                                                                   or repr(a0.options) != repr(b0.options)) and len(viol) < 3:
+                                        viol.append(violation("styles", {"clause": "styles", "field": "offset-blank-in-block"},
+                                                              f"{key} first={first!r}: '---' block with blank lines: offset {b0.body_offset} body {b0.body} options {b0.options}; "
+                                                              f"colon style: offset {a0.body_offset} (+{extra} expected) body {a0.body} options {a0.options}",
+                                                              colon=colon, dashed="\n".join(blank_variant) + nl))
                             try:
                                 a = parse_directive_text(cls, first, colon, line=0)
                                 ea = None
@@ -410,5 +426,85 @@ class MetaSystem(System):
         return Obs(digest=(class_signature(cls), fi, n, good), nontrivial=good > 0, violations=viol, transitions=2 * n, validated=n)
 
 
+HIST_VALUES = ["top", "left", "1", "-1", "x", "50%", "3", "yes"]
+
+
+def _parse_alone(cls, opt, val):
+    try:
+        r = parse_directive_text(cls, " ".join(["x"] * cls.required_arguments), f":{opt}: {val}\n\nbody", line=0)
+        return (repr(r.options), sorted(w.msg for w in r.warnings))
+    except MarkupError as exc:
+        return ("ERR", str(exc))
+
+
+class ConverterHistorySystem(System):
+    """programs x histories: the conversion of an option must depend on the class's OWN option spec, not on an earlier directive."""
+
+    name = "converter-history"
+    fork_per_case = True
+    chunk = 1
+
+    def __init__(self, tier):
+        super().__init__(tier)
+        self.description = ("every ordered pair of registered directive classes that share an option name with DIFFERENT converters x 8 option values: the second class is parsed after "
+                            "the first in one fresh process; its options and warnings must equal those of the second class parsed first in another fresh process")
+
+    def prepare(self, ctx):
+        allc = directive_classes()
+        allc.update(sphinx_classes(ctx.scratch))
+        byopt = {}
+        seen = set()
+        for key, cls in sorted(allc.items()):
+            if issubclass(cls, TestDirective) or not cls.option_spec or id(cls) in seen:
+                continue
+            seen.add(id(cls))
+            for opt, conv in cls.option_spec.items():
+                if opt in ("class", "name") or not re.fullmatch(r"[A-Za-z][\w-]*", opt):
+                    continue
+                byopt.setdefault(opt, []).append((key, cls, getattr(conv, "__qualname__", repr(conv))))
+        self.classes = allc
+        self.pairs = []
+        for opt, lst in sorted(byopt.items()):
+            # one representative class per converter
+            reps = {}
+            for key, cls, cq in lst:
+                reps.setdefault(cq, key)
+            keys = list(reps.values())
+            for a in keys:
+                for b in keys:
+                    if a != b:
+                        self.pairs.append([opt, a, b])
+
+    def bounds(self):
+        return {"pairs": len(getattr(self, "pairs", [])), "values": len(HIST_VALUES)}
+
+    def rule(self):
+        return "one case = (option, class A, class B): all values (transitions); non-trivial = A and B convert some value differently"
+
+    def cases(self):
+        yield from self.pairs
+
+    def run(self, case):
+        from .c15 import in_child
+
+        opt, ka, kb = case
+        A, B = self.classes[ka], self.classes[kb]
+        viol = []
+        diff = 0
+        # baseline of B in its own fresh process (this worker never parses anything itself)
+        base = in_child(lambda: [_parse_alone(B, opt, v) for v in HIST_VALUES])
+        alone_a = []
+        after = []
+        for v in HIST_VALUES:
+            alone_a.append(_parse_alone(A, opt, v))
+            after.append(_parse_alone(B, opt, v))
+        for v, x, y, z in zip(HIST_VALUES, after, base, alone_a):
+            diff += x != z
+            if x != y and len(viol) < 2:
+                viol.append(violation("history", {"clause": "converter-history", "option": opt},
+                                      f":{opt}: {v} on {kb} gives {x} after the same option was parsed for {ka}, but {y} in a fresh process", option=opt, value=v, first=ka, second=kb))
+        return Obs(digest=(opt, ka, kb, repr(after)), nontrivial=diff > 0, violations=viol, transitions=2 * len(HIST_VALUES), validated=len(HIST_VALUES))
+
+
 def systems(tier):
-    return [SplitSystem(tier), MetaSystem(tier)]
+    return [SplitSystem(tier), MetaSystem(tier), ConverterHistorySystem(tier)]
